@@ -1,6 +1,68 @@
-(* Props/C15.v — property theorems only (in progress). *)
+(* Props/C15.v — property theorems only; proofs in Proofs/C15Export.v (+ C01/C02/C12). *)
 From Coq Require Import List NArith.
-From Cedar Require Import Lib.Bytes Lib.Sym Model.Frame.
-Theorem C15_export_needs_encrypted : forall s, encrypted s = false -> export_state s = SErr EExport.
-Proof. intros s H. unfold export_state. rewrite H. reflexivity. Qed.
-Print Assumptions C15_export_needs_encrypted.
+From Cedar Require Import Lib.Bytes Lib.Sym gen.Consts Model.Frame Model.FrameSpec
+     Proofs.FrameBase Proofs.C12Nonce Proofs.C15Export.
+Import ListNotations.
+Local Open Scope N_scope.
+
+(* Export succeeds exactly at a clean message boundary of an established encrypted session:
+   it is refused whenever the stream is not encrypting, has no AES-256 key, has not yet sent AND
+   received a protected frame, or holds a partially sent / partially consumed message. *)
+Theorem C15_export_only_when_clean :
+  forall s, (exists b, export_state s = SOk b) <-> clean s.
+Proof. intro s. split; [intros [b H]; eapply export_ok_clean; exact H|apply clean_export_ok]. Qed.
+Print Assumptions C15_export_only_when_clean.
+
+(* Importing what was exported restores every field that later operations read. *)
+Theorem C15_restore :
+  forall s b peer, export_state s = SOk b ->
+    exists s', import_state b peer = SOk s' /\ same_session s s'.
+Proof. exact import_export. Qed.
+Print Assumptions C15_restore.
+
+(* The peer, unaware of the hand-off, stays paired with the rebuilt stream in both directions:
+   every theorem about a paired duplex (round trip C01, authentic prefix C02, nonce discipline
+   C12) therefore applies unchanged to all further traffic. *)
+Theorem C15_continue :
+  forall s P b peer, duplex s P -> digests_final s -> export_state s = SOk b ->
+    exists s', import_state b peer = SOk s' /\ duplex s' P /\ digests_final s' /\ same_session s s'.
+Proof. exact handoff_continues. Qed.
+Print Assumptions C15_continue.
+
+(* digests_final is what SetSymmetricKey establishes *)
+Theorem C15_set_key_freezes_digests :
+  forall s k iv s', set_key s k iv = SOk s' -> digests_final s'.
+Proof. exact set_key_final. Qed.
+Print Assumptions C15_set_key_freezes_digests.
+
+(* Chains: the rebuilt stream is again at a clean boundary, so it can be handed off again. *)
+Theorem C15_chain :
+  forall s s', same_session s s' -> clean s -> clean s'.
+Proof. exact handoff_clean. Qed.
+Print Assumptions C15_chain.
+
+(* No (key, nonce) pair is reused across a hand-off, whatever is sent before and after. *)
+Theorem C15_no_nonce_reuse :
+  forall s ops1 s1 es1 fs1 b peer s1' ops2 s2 es2 fs2,
+    enc_ctr s <= CounterGuard ->
+    run_sops s ops1 = (s1, es1, fs1) ->
+    export_state s1 = SOk b -> import_state b peer = SOk s1' ->
+    run_sops s1' ops2 = (s2, es2, fs2) ->
+    NoDup (key_nonces (fs1 ++ fs2)).
+Proof. exact no_nonce_reuse_across. Qed.
+Print Assumptions C15_no_nonce_reuse.
+
+(* Import rejects a mis-tagged or wrong-version blob (symbolic blob level; the byte-level
+   parser incl. truncation is Model/Blob.v). *)
+Theorem C15_import_rejects_magic_version :
+  forall b peer,
+    (b_magic b <> [n2b CsMagic0; n2b CsMagic1; n2b CsMagic2; n2b CsMagic3] \/ b_version b <> CsVersion) ->
+    import_state b peer = SErr EImport.
+Proof.
+  intros b peer [Hm|Hv]; unfold import_state.
+  - destruct (bytes_eqb (b_magic b) [n2b CsMagic0; n2b CsMagic1; n2b CsMagic2; n2b CsMagic3]) eqn:E; [|reflexivity].
+    apply bytes_eqb_eq in E. contradiction.
+  - destruct (bytes_eqb (b_magic b) [n2b CsMagic0; n2b CsMagic1; n2b CsMagic2; n2b CsMagic3]); [|reflexivity].
+    cbn [negb]. destruct (b_version b =? CsVersion) eqn:E; [apply N.eqb_eq in E; contradiction|reflexivity].
+Qed.
+Print Assumptions C15_import_rejects_magic_version.
